@@ -51,7 +51,7 @@ def generate(rng, index: int, tier: str) -> dict:
     tl += steps
     times = sorted({s["at"] for s in steps})
     for t in times:
-        tl.append({"at": t + 0.375, "op": "user.snapshot", "label": "s"})
+        tl.append({"at": t + 0.1875, "op": "user.snapshot", "label": "s"})
     tl.sort(key=lambda s: s["at"])
     return {"gen": gen, "mode": "api", "installation": inst, "knobs": knobs, "timeline": tl, "end": 6.0 + 0.5 * n + 1.0}
 
